@@ -36,7 +36,7 @@ func (c *Ctx) successTerms(apply *ssa.Function) []string {
 		for _, g := range guardsOf(r.Block()) {
 			for _, a := range atomsOf(g) {
 				if isNilConst(a.y) && (a.op == token.EQL || a.op == token.NEQ) {
-					if t := c.term(a.x, 0); strings.HasPrefix(t, "P1[") {
+					if t := c.term(a.x, 0); strings.HasPrefix(t, "P1[") || strings.HasPrefix(t, ".") {
 						guard += "[" + t + a.op.String() + "nil]"
 					}
 				}
@@ -66,7 +66,8 @@ func ruleR16(c *Ctx, prop string) {
 			"Mul(UnidirectionalBroadcast(Sub(UnidirectionalBroadcast(P1[0],.offset),UnidirectionalBroadcast(P1[0],.offset)#1),.scale),UnidirectionalBroadcast(Sub(UnidirectionalBroadcast(P1[0],.offset),UnidirectionalBroadcast(P1[0],.offset)#1),.scale)#1)",
 		},
 		"LinearRegressor": {
-			"Add(UnidirectionalBroadcast(MatMul(P1[0],.coefficients),.intercepts),UnidirectionalBroadcast(MatMul(P1[0],.coefficients),.intercepts)#1)",
+			"[.intercepts==nil]MatMul(P1[0],.coefficients)",
+			"[.intercepts!=nil]Add(UnidirectionalBroadcast(MatMul(P1[0],.coefficients),.intercepts),UnidirectionalBroadcast(MatMul(P1[0],.coefficients),.intercepts)#1)",
 		},
 	}
 	for _, name := range []string{"Gemm", "Scaler", "LinearRegressor"} {
